@@ -544,7 +544,8 @@ impl Report {
         json!({
             "property_id": self.ctx.id,
             "tier": self.ctx.tier.name(),
-            "seed": self.ctx.seed,
+            // reported as a signed 64-bit value so that every JSON reader sees an integer
+            "seed": if self.ctx.seed > i64::MAX as u64 { (self.ctx.seed as i64) as i128 as i64 } else { self.ctx.seed as i64 },
             "level": "exploration",
             "coverage": Value::Object(coverage),
             "assumptions": self.assumptions,
